@@ -4,5 +4,11 @@ mod cases {
 }
 
 fn main() {
-    verif_common::runner_main(cases::TABLE);
+    // corpora contain deeply nested inputs; the stack limit of the main thread is not what is studied
+    std::thread::Builder::new()
+        .stack_size(1 << 30)
+        .spawn(|| verif_common::runner_main(cases::TABLE))
+        .expect("spawn")
+        .join()
+        .expect("runner");
 }
